@@ -84,6 +84,19 @@ pub async fn discover_remote_with_meta(
         let stderr = String::from_utf8_lossy(&output.stderr);
         return Err(format!("Failed to list {host}:{remote_root}: {stderr}").into());
     }
+    // Paths travel back as text. An entry that is not valid UTF-8 would be planned
+    // under a lossy spelling: never found when fetched, and - worse - its real name
+    // on the other side would look absent from here and be removed by --delete.
+    if output
+        .stdout
+        .split(|&b| b == 0)
+        .any(|e| std::str::from_utf8(e).is_err())
+    {
+        return Err(format!(
+            "{host}:{remote_root} holds a file name that is not valid UTF-8; refusing to plan from a lossy listing"
+        )
+        .into());
+    }
     Ok(parse_remote_meta_output(&output.stdout))
 }
 
